@@ -10,6 +10,7 @@ Grammar: identifiers, decimal literals, + - * /, ?:, < <= > >= == !=, && ||, par
 nlin() ncol() size() X.nlin() X.ncol() X.size(), static_cast<T>(e) with T in a fixed table.
 Only the HAVE_BLAS / HAVE_LAPACK branch of a preprocessor conditional is read (the configuration the suite builds)."""
 import os, re, sys
+SERVES = ("C18", "C13",)   # properties whose check reports this translator's problems (lib/gencoq.py, core.Check.proofs)
 sys.path.insert(0, os.path.join(os.path.dirname(os.path.dirname(os.path.abspath(__file__))), "lib"))
 import gencoq
 
